@@ -133,7 +133,7 @@ func runEngine(db []J, query J, qv int, max int, maxEvents int) (*engineRun, err
 		select {
 		case ok := <-ch:
 			return ok
-		case <-time.After(5 * time.Second):
+		case <-time.After(wd(5 * time.Second)):
 			r.status = "hang"
 			stop = true
 			cancel()
